@@ -307,7 +307,7 @@ theorem extend_maxlen (d : Deque) (E : Externals) (now : Int) (vs : List PyVal) 
   | nil => rfl
   | cons v vs ih =>
     rw [extend_cons, ih]
-    rfl
+    exact append_maxlen d E now v left
 
 end Deque
 
